@@ -1,6 +1,12 @@
 package main
 
-import "golang.org/x/tools/go/ssa"
+import (
+	"fmt"
+	"go/token"
+	"go/types"
+
+	"golang.org/x/tools/go/ssa"
+)
 
 // loadedIsMutated: the map or slice value loaded from a guarded field is updated in place
 // (m[k] = v, delete(m, k), s[i] = v).
@@ -115,4 +121,106 @@ func sliceMutatedInPlace(v ssa.Value, seen map[ssa.Value]bool) bool {
 		}
 	}
 	return false
+}
+
+// guardedLookup: v is the element a map lookup took out of a guarded map field (x.databases[k]); returns the
+// guard of that field.
+func (e *engine) guardedLookup(v ssa.Value) (*guardSpec, *ssa.FieldAddr) {
+	if ex, ok := v.(*ssa.Extract); ok && ex.Index == 0 {
+		v = ex.Tuple
+	}
+	lk, ok := v.(*ssa.Lookup)
+	if !ok {
+		return nil, nil
+	}
+	ld, ok := lk.X.(*ssa.UnOp)
+	if !ok {
+		return nil, nil
+	}
+	fa, ok := ld.X.(*ssa.FieldAddr)
+	if !ok {
+		return nil, nil
+	}
+	stt := fa.X.Type().Underlying().(*types.Pointer).Elem()
+	s, ok := stt.Underlying().(*types.Struct)
+	if !ok {
+		return nil, nil
+	}
+	return e.guardFor(stt, s.Field(fa.Field).Name()), fa
+}
+
+// nilTolerant: the method compares its receiver with nil somewhere (func (d *T) f() bool { return d != nil && ... }).
+func nilTolerant(fn *ssa.Function) bool {
+	if len(fn.Params) == 0 {
+		return false
+	}
+	recv := fn.Params[0]
+	for _, b := range fn.Blocks {
+		for _, in := range b.Instrs {
+			if bo, ok := in.(*ssa.BinOp); ok && (bo.Op == token.EQL || bo.Op == token.NEQ) {
+				if c, ok := bo.Y.(*ssa.Const); ok && c.IsNil() && bo.X == ssa.Value(recv) {
+					return true
+				}
+				if c, ok := bo.X.(*ssa.Const); ok && c.IsNil() && bo.Y == ssa.Value(recv) {
+					return true
+				}
+			}
+		}
+	}
+	return false
+}
+
+// checkLookedUpReceiver: a method is called on what a lookup in a guarded map returned (s.databases[db].f()).
+// Between the moment the key was known to be present and this lookup the lock may have been dropped and the
+// entry deleted by another goroutine: a nil receiver panics inside the method - with the store's lock held.
+// The obligation is that the entry is known to be present at the call (a comma-ok test, a nil test, or a
+// presence fact established since the lock was last taken).
+func (v *vc) checkLookedUpReceiver(fr *frame, st *state, callee *ssa.Function, c *ssa.CallCommon, args []string, site string) {
+	if v.fc == nil || !v.fc.sweep || callee == nil || callee.Signature.Recv() == nil || len(c.Args) == 0 || len(args) == 0 || v.fc.setupOnly != "" {
+		return
+	}
+	if _, isPtr := c.Args[0].Type().Underlying().(*types.Pointer); !isPtr {
+		return
+	}
+	g, fa := v.eng.guardedLookup(c.Args[0])
+	if g == nil || nilTolerant(callee) {
+		return
+	}
+	// only for a lookup made in a critical section that is not the function's first one for this mutex: what an
+	// earlier section established about the map need not hold any more
+	_ = fa
+	var lk ssa.Value = c.Args[0]
+	if ex, ok := lk.(*ssa.Extract); ok {
+		lk = ex.Tuple
+	}
+	dropped, ok := v.lookupAfterDrop[lk]
+	if !ok {
+		return
+	}
+	if why, ok := v.fc.absentUnused[g.typ+"."+g.field]; ok {
+		v.trusted[fmt.Sprintf("assumed in contract of %s: an entry of %s.%s that is missing after the lock was dropped is not used (%s)", v.fnName, g.typ, g.field, why)] = true
+		return
+	}
+	v.oblige(st, "guard", fmt.Sprintf("entry_of_%s.%s_is_present_after_the_lock_was_dropped", g.typ, g.field), site,
+		fmt.Sprintf("(=> %s (not (= %s 0)))", dropped, args[0]), []string{"C19"})
+}
+
+// noteGuardedLookup: remembers, for a lookup in a guarded map, whether this function had already released the
+// guarding mutex once when the lookup was made.
+func (v *vc) noteGuardedLookup(fr *frame, st *state, lk *ssa.Lookup) {
+	if v.fc == nil || !v.fc.sweep || !fr.top {
+		return
+	}
+	g, fa := v.eng.guardedLookup(lk)
+	if g == nil {
+		return
+	}
+	rel, ok := st.ghost[relPrefix+balPrefix+sanitizeGhost(g.typ+"_"+g.mu)]
+	if !ok {
+		return
+	}
+	if v.lookupAfterDrop == nil {
+		v.lookupAfterDrop = map[ssa.Value]string{}
+	}
+	v.lookupAfterDrop[lk] = v.define("dropped", "Bool", fmt.Sprintf("(= (select %s %s) 1)", rel, v.balRef(fr, st, fa.X)))
 }
